@@ -262,6 +262,8 @@ pub struct Bounds {
     pub max_defines: usize,
     pub max_closes: usize,
     pub state_cap: usize,
+    /// deterministic budget: transitions executed per theory (the wall cap is only a safety net)
+    pub trans_cap: usize,
     pub wall_cap_s: u64,
     pub close_until: bool,
 }
@@ -286,7 +288,11 @@ pub fn menu(th: &Theory, run: &Run, b: &Bounds, explored_ops: &[Op]) -> Vec<Op> 
     let n_def = explored_ops.iter().filter(|o| matches!(o, Op::Define(..) | Op::NewEnum(..))).count();
     let n_close = explored_ops.iter().filter(|o| matches!(o, Op::Close | Op::CloseUntil(_))).count();
     // facts: unary, then wider
-    let mut rel_order: Vec<usize> = (0..th.rels.len()).collect();
+    // corpus metadata may restrict the menu: `menu_rels` (only these relations are asserted by the driver) and
+    // `no_insert` (witness predicates that only rules write); both only shrink the alphabet
+    let listed = |key: &str, name: &str| th.meta.get(key).and_then(|v| v.as_array()).map(|a| a.iter().any(|x| x.as_str() == Some(name)));
+    let mut rel_order: Vec<usize> = (0..th.rels.len())
+        .filter(|&r| listed("menu_rels", &th.rels[r].name).unwrap_or(true) && !listed("no_insert", &th.rels[r].name).unwrap_or(false)).collect();
     rel_order.sort_by_key(|&r| th.rels[r].arity.len());
     for &r in &rel_order {
         for t in tuples_over(&run.handles, &th.rels[r].arity) { m.push(Op::Insert(r, t)); }
@@ -316,7 +322,9 @@ pub fn menu(th: &Theory, run: &Run, b: &Bounds, explored_ops: &[Op]) -> Vec<Op> 
         if b.close_until {
             for k in 1..=3 { m.push(Op::CloseUntil(Cond::Iter(k))); }
             m.push(Op::CloseUntil(Cond::True));
-            for &r in &rel_order {
+            let mut cond_order: Vec<usize> = (0..th.rels.len()).collect();
+            cond_order.sort_by_key(|&r| th.rels[r].arity.len());
+            for &r in &cond_order {
                 let rel = &th.rels[r];
                 if rel.is_func {
                     let n = rel.arity.len() - 1;
@@ -363,6 +371,7 @@ pub struct TheoryResult {
     pub nontrivial: u64,
     pub depth_completed: usize,
     pub capped: bool,
+    pub cap_hit: &'static str,
     pub inconclusive: u64,
     pub max_close_iterations: u64,
     pub groups: u64,
@@ -396,7 +405,7 @@ pub fn replay_history<'a>(th: &'a Theory, make: fn() -> Box<dyn DynModel>, histo
 
 pub fn explore_theory(th: &Theory, make: fn() -> Box<dyn DynModel>, b: &Bounds, oracles: &Oracles) -> TheoryResult {
     let t0 = std::time::Instant::now();
-    let mut res = TheoryResult { theory: th.name.clone(), states: 0, transitions: 0, closes: 0, nontrivial: 0, depth_completed: 0, capped: false,
+    let mut res = TheoryResult { theory: th.name.clone(), states: 0, transitions: 0, closes: 0, nontrivial: 0, depth_completed: 0, capped: false, cap_hit: "",
         inconclusive: 0, max_close_iterations: 0, groups: 0, groups_nontrivial: 0, violations: vec![], samples: vec![], transcripts: vec![] };
     let mut seen: HashSet<(u64, u64)> = HashSet::new();
     let mut frontier: Vec<Node> = Vec::new();
@@ -539,7 +548,8 @@ pub fn explore_theory(th: &Theory, make: fn() -> Box<dyn DynModel>, b: &Bounds, 
                     next.push(Node { history: hist, explored_from: node.explored_from, transcript: o.transcript });
                 }
             }
-            if seen.len() > b.state_cap || t0.elapsed().as_secs() > b.wall_cap_s { res.capped = true; break; }
+            if seen.len() > b.state_cap || res.transitions as usize > b.trans_cap { res.capped = true; res.cap_hit = "transition/state budget"; break; }
+            if t0.elapsed().as_secs() > b.wall_cap_s { res.capped = true; res.cap_hit = "wall-clock safety net"; break; }
         }
         }
         res.states = seen.len() as u64;
